@@ -56,8 +56,8 @@ def gen(seed, tier, focus):
         ops = b + [[1, 0, 0, 2], [1, 1, 0, 0]] + [[9] + [rng.randint(0, 3) for _ in range(12)]]
         cases.append(Case("mx", "%sbad%d" % (focus[0], j), ops))
     if tier != "quick":
-        # systematic: every schedule prefix of length 11 over 2 choices (2 contenders x 2 rounds) and
-        # of length 8 over 3 choices (3 contenders x 1 round), then lowest-thread-first
+        # systematic: every schedule prefix of length 13 over 2 choices (2 contenders x 2 rounds) and
+        # of length 9 over 3 choices (3 contenders x 1 round), then lowest-thread-first
         cfg2 = [[(0, [(0, 0), (0, 2)]), (0, [(0, 1), (0, 0)])],
                 [(0, [(0, 2), (0, 2)]), (1, [(0, 0), (0, 1)])],
                 [(1, [(0, 0), (0, 0)]), (1, [(0, 1), (1, 0)])],
@@ -67,10 +67,10 @@ def gen(seed, tier, focus):
                 [(1, [(0, 0)]), (1, [(0, 1)]), (0, [(1, 0)])]]
         j = 0
         for cont in cfg2:
-            for pre in itertools.product(range(2), repeat=11):
+            for pre in itertools.product(range(2), repeat=13):
                 cases.append(mk("%sx%d" % (focus[0], j), cont, pre)); j += 1
         for cont in cfg3:
-            for pre in itertools.product(range(3), repeat=8):
+            for pre in itertools.product(range(3), repeat=9):
                 cases.append(mk("%sx%d" % (focus[0], j), cont, pre)); j += 1
         # two single-step preemptions at every pair of positions of a long lowest-first run
         for cont in cfg2[:2] + cfg3[:2]:
